@@ -667,3 +667,48 @@ def c13_jobs(report, rng, pristine, hist):
         report.violation("FiltersSet behaviour depends on scripts parsed earlier: after %d parses the job %r gives %r, a pristine "
                          "interpreter gives %r" % (len(hist), job, got, want),
                          {"property": "C13", "history": [hx(x) for x in hist], "job": job})
+
+
+C13_LIVE_OPS = [
+    ["addfilter", "a", [["Subject", ":regex", "x.*"]], [["fileinto", "a"]]],
+    ["addfilter", "b", [["envelope", ":regex", ["to"], ["x"]]], [["keep"]]],
+    ["addfilter", "c", [["Subject", ":count", "2"]], [["redirect", ":copy", "b@c"]]] if False else
+    ["addfilter", "c", [["body", ":raw", ":regex", "z"]], [["redirect", ":copy", "b@c"]]],
+    ["addfilter", "d", [["currentdate", ":zone", "+0100", ":value", "gt", "date", "2020-01-01"]], [["stop"]]],
+    ["updatefilter", "a", "a", [["To", ":regex", "y+"]], [["fileinto", ":copy", "b"]]],
+    ["addfilter", "e", [["Subject", ":regex", "again"]], [["vacation", ":seconds", 5, "r"]]],
+    ["addfilter", "f", [["address", ":regex", ["from"], ["k"]]], [["fileinto", ":create", "m"]]],
+    ["disablefilter", "a"],
+    ["updatefilter", "b", "b", [["envelope", ":regex", ["from"], ["q"]]], [["keep"]]],
+]
+
+
+class C13LiveSet:
+    """One FiltersSet that lives through a parsing history: operations are applied between parses; at the end the
+    outcomes and the rendered script must equal those of the same operations in a pristine interpreter (where no
+    parse happens in between)."""
+
+    def __init__(self):
+        from sievelib import factory
+        self.fs = factory.FiltersSet("job")
+        self.job = []
+        self.outs = []
+
+    def step(self, rng):
+        op = C13_LIVE_OPS[len(self.job) % len(C13_LIVE_OPS)] if rng.random() < 0.7 else rng.choice(C13_LIVE_OPS)
+        self.job.append(op)
+        self.outs += F.run_job([op], fs=self.fs, finish=False)
+
+    def finish(self, report, pristine, hist):
+        if not self.job:
+            return
+        got = self.outs + F.run_job([], fs=self.fs)
+        want = pristine.ask("F " + json.dumps(self.job))
+        report.case(("factory-live-set", json.dumps(self.job), len(hist)), True)
+        report.count("factory-live-sets")
+        if got != want:
+            k = next((i for i, (a, b) in enumerate(zip(got, want)) if a != b), min(len(got), len(want)))
+            report.violation("a FiltersSet used between parses depends on them: operations %r interleaved with %d parses give %r at "
+                             "position %d, a pristine interpreter gives %r" % (self.job, len(hist), got[k][:200] if k < len(got) else None,
+                                                                              k, want[k][:200] if k < len(want) else None),
+                             {"property": "C13", "history": [hx(x) for x in hist], "job": self.job})
